@@ -17,6 +17,7 @@ import (
 	"reflect"
 	"runtime"
 	"strings"
+	"time"
 
 	"github.com/tormoder/fit"
 	"pgregory.net/rapid"
@@ -49,7 +50,7 @@ func (o Op) String() string {
 }
 
 // OpKinds lists the call kinds.
-var OpKinds = []string{"decode", "decodeopts", "chained", "chainedopts", "decodelogger", "integrity", "header", "headerfileid", "decodefault", "encode", "encodebad", "encodefw"}
+var OpKinds = []string{"decode", "decodeopts", "chained", "chainedopts", "chainedlog1", "chainedlog3", "decodelogger", "integrity", "header", "headerfileid", "decodefault", "encode", "encodebad", "encodefw"}
 
 // faultAts are the byte counts after which the reader of a "decodefault"
 // call fails with an error of its own (inside the header after the size
@@ -124,6 +125,22 @@ func Run(p *Pool, op Op, files map[int]*fit.File) (res string) {
 	case "chainedopts":
 		// options given to DecodeChained (the same shared option values)
 		fs, err := fit.DecodeChained(bytes.NewReader(p.Bytes[op.Idx]), sharedOpts...)
+		var sb strings.Builder
+		fmt.Fprintf(&sb, "err=%s n=%d\n", errText(err), len(fs))
+		for _, f := range fs {
+			sb.WriteString(digestFile(f))
+			sb.WriteString("--\n")
+		}
+		return sb.String()
+	case "chainedlog1", "chainedlog3":
+		// the caller keeps its options in one slice with room to grow and
+		// passes a prefix of it: the logger alone, or the logger and both
+		// tallies. The callee owns neither the slice nor its spare capacity.
+		n := 1
+		if op.Kind == "chainedlog3" {
+			n = 3
+		}
+		fs, err := fit.DecodeChained(bytes.NewReader(p.Bytes[op.Idx]), sharedLogOpts[:n]...)
 		var sb strings.Builder
 		fmt.Fprintf(&sb, "err=%s n=%d\n", errText(err), len(fs))
 		for _, f := range fs {
@@ -207,7 +224,9 @@ func Run(p *Pool, op Op, files map[int]*fit.File) (res string) {
 	return "unknown op"
 }
 
-var sharedOpts = []fit.DecodeOption{fit.WithUnknownFields(), fit.WithUnknownMessages()}
+var sharedOpts = append(make([]fit.DecodeOption, 0, 8), fit.WithUnknownFields(), fit.WithUnknownMessages())
+
+var sharedLogOpts = append(make([]fit.DecodeOption, 0, 8), fit.WithLogger(log.New(io.Discard, "", 0)), fit.WithUnknownFields(), fit.WithUnknownMessages())
 
 type failingWriter struct {
 	buf   bytes.Buffer
@@ -359,6 +378,22 @@ func BuildPool(seed int) *Pool {
 				o.FieldPct = 45
 			}
 			p.Specs = append(p.Specs, gen.GenFile(d, o))
+		}
+		// local times in the same tz-database Locations on both sides of a
+		// daylight-saving change (prof.Location hands out one *time.Location
+		// per name, as a program that loads its zone once does)
+		for _, zone := range []string{"Europe/Oslo", "America/New_York"} {
+			for _, unix := range []int64{1610712000, 1626350400} { // 2021-01-15, 2021-07-15 12:00 UTC
+				off := 0
+				if loc := prof.Location(zone); loc != nil {
+					_, off = time.Unix(unix, 0).In(loc).Zone()
+				}
+				lt := fitmodel.T(unix, off)
+				lt.S = "tz:" + zone
+				p.Specs = append(p.Specs, &gen.FileSpec{Type: 4, Proto: 0x20, HdrCRC: true, FileId: gen.MsgSpec{Fields: map[string]fitmodel.Val{}},
+					Slots: []gen.SlotSpec{{Name: "Activity", Msgs: []gen.MsgSpec{{Global: 34, Fields: map[string]fitmodel.Val{
+						"Timestamp": fitmodel.T(unix, 0), "LocalTimestamp": lt, "NumSessions": fitmodel.U(1)}}}}}})
+			}
 		}
 		// byte-array fields longer and shorter than their profile length in
 		// the same pool (anything that adapts shared tables to the data
